@@ -5,7 +5,8 @@ in-memory queues of serialized boxes (one transport.write per box = box-level de
 real BinaryBoxProtocol parser).  The SCHEDULE is symbolic: a List[int] over {A/B calls a command whose
 responder answers now / later / raises a declared error / raises an undeclared error; deliver the
 next box A->B / B->A; fire the oldest or newest pending responder with a result or a declared error;
-connection lost}.  A reference model predicts, after every step, the queue lengths and the outcome
+connection lost}, plus a CHAINED call whose result handler issues one further call (retry-on-failure
+user code, also from the errback run during connection loss).  A reference model predicts, after every step, the queue lengths and the outcome
 of every callRemote Deferred; the real objects must agree after every step and at the end (where the
 connection is lost if it was not already).
 """
@@ -30,13 +31,18 @@ ENCODED = ["twisted.protocols.amp:BoxDispatcher._sendBoxCommand", "twisted.proto
            "twisted.protocols.amp:Command._doCommand", "twisted.protocols.amp:CommandLocator._wrapWithSerialization",
            "twisted.protocols.amp:BinaryBoxProtocol.connectionLost", "twisted.protocols.amp:BinaryBoxProtocol.sendBox",
            "twisted.protocols.amp:AMP.connectionLost", "twisted.protocols.amp:QuitBox._sendTo"]
-BOUNDS = {"quick": {"len": 6, "calls": 3, "bkinds": 2}, "thorough": {"len": 8, "calls": 3, "bkinds": 4}}
+BOUNDS = {"quick": {"len": 6, "calls": 3, "bkinds": 2, "chains": 1, "ckinds": 4, "bckinds": 0},
+          "thorough": {"len": 8, "calls": 3, "bkinds": 4, "chains": 1, "ckinds": 4, "bckinds": 2}}
 B = {}
 BOUNDS_TEXT = ("every schedule of <= len steps with <= calls callRemote invocations in total; the first call is "
                "A's (A and B are the same class: symmetry); A's commands have all 4 responder behaviours (answer now, "
-               "answer later or never, declared error, undeclared error), B's the first `bkinds` of them; a step "
-               "that is not enabled (empty queue, nothing pending, call budget used; op code 14 is never enabled) "
-               "ends the schedule, so the list of exactly `len` step codes covers all shorter schedules too")
+               "answer later or never, declared error, undeclared error), B's the first `bkinds` of them; at most "
+               "`chains` CHAINED call per schedule (A: first `ckinds` behaviours, B: first `bckinds`): its result "
+               "handler - success callback or errback, also the errback run by failAllOutgoing while the loss is "
+               "being processed - issues one further callRemote, which is tracked like any other call (a chained "
+               "call uses two of the call budget); a step that is not enabled (empty queue, nothing pending, call "
+               "budget used; op code 14 is never enabled) ends the schedule, so the list of exactly `len` step codes "
+               "covers all shorter schedules too")
 OUTSIDE = ["byte-level disconnect positions and partial boxes (box-level delivery only; the byte parser is C30)",
            "more than `calls` commands / longer schedules; responders failing later with an UNdeclared error",
            "symbolic argument values (boxes are concrete: each call carries its own distinct integer tag)",
@@ -145,19 +151,28 @@ class _World:
         self.done = {}                 # id -> expected outcome
         self.caller = []               # id -> side
         self.mclose = {"A": False, "B": False}   # side asked its transport to close (fatal error sent)
+        self.chain = {}                # id of a chained call -> its side (its result handler issues ONE more call)
+        self.nbase = 0                 # calls issued by schedule steps (and by the final check)
+        self.nchain = 0
 
     def other(self, n):
         return "B" if n == "A" else "A"
 
-    def call(self, side, kind):
+    def call(self, side, kind, chained=False, child=False):
         cid = len(self.res)
         tag = 100 + cid
         self.res.append([])
         self.caller.append(side)
+        if not child:
+            self.nbase += 1
+        if chained:
+            self.chain[cid] = side
+            self.nchain += 1
         d = self.peers[side].callRemote(CMDS[kind], tag=tag)
 
         def ok(r, cid=cid):
             self.res[cid].append(("ok", r.get("tag")))
+            return r
 
         def err(f, cid=cid):
             if f.check(DeclaredError):
@@ -169,8 +184,12 @@ class _World:
             else:
                 self.res[cid].append(("other", f.type.__name__))
         d.addCallbacks(ok, err)
+        if chained:
+            # retry-style user code: whatever the outcome (success callback or errback, also the errback
+            # run by failAllOutgoing DURING connection loss), issue exactly one further call from there
+            d.addCallback(lambda _, side=side: self.call(side, NOW, child=True))
         if self.lost:
-            self.done[cid] = ("lost",)
+            self.done[cid] = ("lost",)      # also for a call issued while the loss is being processed
         else:
             self.mq[side].append(("req", cid, kind))
 
@@ -210,7 +229,7 @@ class _World:
                 self.mq[side].append(("decl", cid))
 
     def lose(self):
-        self.lost = True
+        self.lost = True            # from here on (i.e. also inside connectionLost) calls must fail at once
         for n in ("A", "B"):
             self.peers[n].connectionLost(Failure(ConnectionDone()))
             self.tr[n].queue = []
@@ -235,11 +254,17 @@ class _World:
             want = [self.done[cid]] if cid in self.done else []
             if self.res[cid] != want:
                 return False
-        return True
+        # a chained call has issued its one further call exactly when it is done
+        nchild = 0
+        for cid in self.chain:
+            if cid in self.done:
+                nchild += 1
+        return len(self.res) == self.nbase + nchild
 
 
 # op codes
 A_CALL, B_CALL, D_AB, D_BA, F_OLD_OK, F_OLD_ERR, F_NEW_OK, LOSE = 0, 4, 8, 9, 10, 11, 12, 13
+STOP, A_CHAIN, B_CHAIN, NCODES = 14, 15, 19, 23     # 15-18 / 19-22: chained call of kind 0-3 by A / B
 
 
 def _enabled(w, ncalls):
@@ -248,6 +273,10 @@ def _enabled(w, ncalls):
         en += [A_CALL + k for k in range(4)]
         if ncalls > 0:
             en += [B_CALL + k for k in range(B['bkinds'])]
+        if w.nchain < B['chains'] and ncalls + 2 <= B['calls']:     # a chained call uses two of the call budget
+            en += [A_CHAIN + k for k in range(B['ckinds'])]
+            if ncalls > 0:
+                en += [B_CHAIN + k for k in range(B['bckinds'])]
     if not w.lost:
         if w.mq["A"]:
             en.append(D_AB)
@@ -277,6 +306,9 @@ def _step(w, sel):
     if sel < D_AB:
         side = "A" if sel < B_CALL else "B"
         w.call(side, sel - (A_CALL if sel < B_CALL else B_CALL))
+    elif sel >= A_CHAIN:
+        side = "A" if sel < B_CHAIN else "B"
+        w.call(side, sel - (A_CHAIN if sel < B_CHAIN else B_CHAIN), chained=True)
     elif sel == D_AB:
         w.deliver("A")
     elif sel == D_BA:
@@ -308,6 +340,8 @@ def _run(ops):
             break               # a step that is not enabled ends the schedule
         if sel < D_AB:
             ncalls += 1
+        elif sel >= A_CHAIN:
+            ncalls += 2
         with _untraced():
             ok = _step(w, sel)
         if not ok:
@@ -336,7 +370,7 @@ def _final(w):
 
 def schedule(ops: List[int]) -> bool:
     """
-    pre: len(ops) == B['len'] and all(0 <= o <= 14 for o in ops)
+    pre: len(ops) == B['len'] and all(0 <= o <= 22 for o in ops)
     post: _
     """
     ok, w = _run(ops)
@@ -357,30 +391,40 @@ class _Abs:
             self.mpend = []
             self.lost = False
             self.n = 0
+            self.nchain = 0
         else:
             self.mq = {"A": list(src.mq["A"]), "B": list(src.mq["B"])}
             self.mpend = list(src.mpend)
             self.lost = src.lost
             self.n = src.n
+            self.nchain = src.nchain
 
     def step(self, sel):
         w = _Abs(self)
-        if sel < D_AB:
+        if sel < D_AB or sel >= A_CHAIN:
+            ch = sel >= A_CHAIN
+            side = "A" if (sel < B_CALL or A_CHAIN <= sel < B_CHAIN) else "B"
+            kind = (sel - A_CHAIN) % 4 if ch else sel % 4
             if not w.lost:
-                w.mq["A" if sel < B_CALL else "B"].append(("req", sel % 4))
+                w.mq[side].append(("req", kind, ch))
             w.n += 1
+            if ch:
+                w.n += 1
+                w.nchain += 1
         elif sel in (D_AB, D_BA):
             frm, to = ("A", "B") if sel == D_AB else ("B", "A")
             e = w.mq[frm].pop(0)
             if e[0] == "req":
                 if e[1] == LATER:
-                    w.mpend.append(to)
+                    w.mpend.append((to, e[2]))
                 else:
-                    w.mq[to].append(("x",))
+                    w.mq[to].append(("x", e[2]))
+            elif e[1]:
+                w.mq[to].append(("req", NOW, False))    # the chained call's one further call
         elif sel in (F_OLD_OK, F_OLD_ERR, F_NEW_OK):
-            side = w.mpend.pop(-1 if sel == F_NEW_OK else 0)
+            side, ch = w.mpend.pop(-1 if sel == F_NEW_OK else 0)
             if not w.lost:
-                w.mq[side].append(("x",))
+                w.mq[side].append(("x", ch))
         else:
             w.lost = True
             w.mq = {"A": [], "B": []}
@@ -395,7 +439,7 @@ def _prefix_counts(tier):
 
     def rec(w, depth, prefix):
         if len(prefix) >= 3:
-            key = prefix[0] * 225 + prefix[1] * 15 + prefix[2]
+            key = prefix[0] * NCODES * NCODES + prefix[1] * NCODES + prefix[2]
             cnt[key] = cnt.get(key, 0) + 1
         if depth == B['len']:
             return
@@ -408,17 +452,17 @@ def _prefix_counts(tier):
 
 
 def _shards(tier):
-    # complete partition of the inputs: contiguous ranges of the first three steps read as a base-15
+    # complete partition of the inputs: contiguous ranges of the first three steps read as a base-23
     # number, cut so that each range holds about the same number of schedules
     cnt = _prefix_counts(tier)
     target = 450 if tier == "quick" else 6000
     sh = []
     lo = 0
     acc = 0
-    for key in range(15 ** 3):
+    for key in range(NCODES ** 3):
         acc += cnt.get(key, 0)
-        if acc >= target or key == 15 ** 3 - 1:
-            sh.append(("%d <= ops[0] * 225 + ops[1] * 15 + ops[2] <= %d" % (lo, key),))
+        if acc >= target or key == NCODES ** 3 - 1:
+            sh.append(("%d <= ops[0] * %d + ops[1] * %d + ops[2] <= %d" % (lo, NCODES * NCODES, NCODES, key),))
             lo = key + 1
             acc = 0
     return sh
@@ -428,4 +472,5 @@ HARNESSES = [H(schedule, shards=_shards, timeout={"quick": 100, "thorough": 1500
 
 VECTORS = {"schedule": [([14],), ([0, 8, 9, 14],), ([1, 0, 8, 8, 9, 10, 9],), ([2, 8, 9, 14],), ([3, 8, 9, 14],),
                         ([1, 8, 13, 10, 14],), ([0, 4, 8, 9, 9, 8],), ([1, 1, 8, 8, 12, 9],), ([0, 13, 0, 14],),
-                        ([1, 5, 9, 8, 11, 10],)]}
+                        ([1, 5, 9, 8, 11, 10],), ([15, 13, 14],), ([15, 8, 9, 8, 9, 14],), ([17, 8, 9, 8, 13, 14],),
+                        ([16, 0, 8, 8, 13, 10],), ([18, 8, 9, 4, 9, 13],), ([0, 15, 13, 14],), ([13, 15, 14],)]}
